@@ -106,3 +106,12 @@ func (c *Console) Reset() error                     { vsched.Yield("console.Rese
 func (c *Console) Size() (console.WinSize, error) {
 	return console.WinSize{Width: uint16(c.T.Cols), Height: uint16(c.T.Rows)}, nil
 }
+
+// ResizeTerm changes the terminal size the way a window manager would; an in-band
+// size report, if the mode is on, becomes input.
+func (c *Console) ResizeTerm(cols, rows int) {
+	c.T.Resize(cols, rows)
+	if out := c.T.TakeOutput(); len(out) > 0 && !c.Mute {
+		c.in = append(c.in, out...)
+	}
+}
